@@ -185,8 +185,8 @@ def name_scheme(ck, S, RID):
         s = t
         if s.startswith("^"):
             s = s[1:]
-        if s.endswith("$"):
-            s = s[:-1]
+        from rules.rfs import end_anchor
+        s = end_anchor(s)[1]
         if s.endswith("(\\.gz)?"):
             s = s[:-len("(\\.gz)?")]
         toks = []
@@ -234,7 +234,8 @@ def name_scheme(ck, S, RID):
         tp = [x for x in pattern_templates(fn) if "%1" in x[0]]
         if len(tp) != 2:
             continue
-        if fn is not gnf and not all(x[0].startswith("^") and x[0].endswith("$") for x in tp):
+        from rules.rfs import end_anchor
+        if fn is not gnf and not all(x[0].startswith("^") and end_anchor(x[0])[0] for x in tp):
             # the pattern is assembled piecewise (e.g. `if (!suffix.isEmpty()) pattern += ...`): both variants were already
             # recovered by the abstract string evaluation and compared with the writer above
             continue
